@@ -33,20 +33,21 @@ type Member struct {
 
 // A Step is one action of a scenario.
 type Step struct {
-	A    string   `json:"a"`
-	Site string   `json:"site,omitempty"`
-	Tag  string   `json:"tag,omitempty"`
-	ID   string   `json:"id,omitempty"`
-	Out  string   `json:"out,omitempty"`
-	C    string   `json:"c,omitempty"`
-	Kind string   `json:"kind,omitempty"` // send: msg | garbage | empty
-	Arr  bool     `json:"arr,omitempty"`
-	Mem  []Member `json:"mem,omitempty"`
-	N    int      `json:"n,omitempty"`
-	Raw  string   `json:"raw,omitempty"`  // send: literal record instead of Mem
-	Soft bool     `json:"soft,omitempty"` // gate: absence of the goroutine is not a divergence
-	From string   `json:"from,omitempty"` // callback/notify issued from the handler with this tag
-	Proj *Proj    `json:"proj,omitempty"` // the model's state after this step, as far as VerifSnapshot shows it
+	A     string   `json:"a"`
+	Site  string   `json:"site,omitempty"`
+	Tag   string   `json:"tag,omitempty"`
+	ID    string   `json:"id,omitempty"`
+	Out   string   `json:"out,omitempty"`
+	C     string   `json:"c,omitempty"`
+	Kind  string   `json:"kind,omitempty"` // send: msg | garbage | empty
+	Arr   bool     `json:"arr,omitempty"`
+	Mem   []Member `json:"mem,omitempty"`
+	N     int      `json:"n,omitempty"`
+	Raw   string   `json:"raw,omitempty"`   // send: literal record instead of Mem
+	Soft  bool     `json:"soft,omitempty"`  // gate: absence of the goroutine is not a divergence
+	From  string   `json:"from,omitempty"`  // callback/notify issued from the handler with this tag
+	NoCtx bool     `json:"noctx,omitempty"` // callback: issue it with context.Background() (a context that can never end)
+	Proj  *Proj    `json:"proj,omitempty"`  // the model's state after this step, as far as VerifSnapshot shows it
 }
 
 // Proj is the projection of a ServerImpl state on what VerifSnapshot exposes.
@@ -171,8 +172,14 @@ func outcome(tag, out string, ctx context.Context) (any, error) {
 }
 
 func (r *runner) doCallback(ctx context.Context, srv *jrpc2.Server, c string) {
-	cctx, cancel := context.WithCancel(ctx)
-	r.cbCancel[c] = cancel
+	cctx := ctx
+	if ctx != noCtx { // noCtx: the caller's context can never end (Done() == nil)
+		var cancel context.CancelFunc
+		cctx, cancel = context.WithCancel(ctx)
+		r.cbCancel[c] = cancel
+	} else {
+		cctx = context.Background()
+	}
 	r.rec.Log("CallbackB", "c", c)
 	rsp, err := srv.Callback(cctx, "cbm", map[string]string{"tag": c})
 	res, tag, code := "reply", "", 0
@@ -214,6 +221,9 @@ func (r *runner) doNotify(ctx context.Context, srv *jrpc2.Server) {
 	}
 	r.rec.Log("NotifyE", "res", res)
 }
+
+// noCtx marks a callback issued with a context that can never end.
+var noCtx = context.WithValue(context.Background(), struct{ k string }{"noctx"}, true)
 
 type assigner struct{ r *runner }
 
@@ -419,6 +429,8 @@ func (r *runner) doStep(st Step) {
 	case "callback":
 		if st.From != "" {
 			r.gateL(st.From) <- hcmd{"callback", st.C}
+		} else if st.NoCtx {
+			go r.doCallback(noCtx, r.srv, st.C)
 		} else {
 			go r.doCallback(context.Background(), r.srv, st.C)
 		}
